@@ -665,3 +665,42 @@ seeded('C09', 'confidence interval undefined for zero variance', 'R9.5',
 seeded('C01', 'backing list created in the class body', 'R1.7',
        [('eventlist', "        self._event_list: list[SimEventInterface] = []\n        heapq.heapify(self._event_list)\n", "        self._event_list.clear()\n"),
         ('eventlist', "class EventListHeap(EventListInterface):\n", "class EventListHeap(EventListInterface):\n    _event_list: list = []\n")], key='shared')
+
+# ===================================================================================================== round 9 additions
+seeded('C02', 'Replication.end_sim_time reports the run length', 'R2.9',
+       [('experiment', "        return self.run_control._end_sim_time\n", "        return self.run_control._end_sim_time - self.run_control._start_sim_time\n")], key='end_sim_time')
+seeded('C03', 'RunControl stores the run length as end time', 'R3.6',
+       [('experiment', "        self._end_sim_time: TIME = start_time + run_length\n", "        self._end_sim_time: TIME = run_length\n")], key='end_sim_time')
+seeded('C11', 'warm-up time stored as the warm-up period', 'R11.9',
+       [('experiment', "        self._warmup_sim_time: TIME = start_time + warmup_period\n", "        self._warmup_sim_time: TIME = warmup_period\n")], key='warmup_sim_time')
+benign('C02', 'run length computed through a named local',
+       [('experiment', "        return self._end_sim_time - self._start_sim_time\n", "        length = self._end_sim_time - self._start_sim_time\n        return length\n")])
+benign('C11', 'Replication.warmup_period through the RunControl property',
+       [('experiment', "        return self.run_control._warmup_sim_time - self.run_control._start_sim_time\n", "        return self.run_control.warmup_period\n")])
+seeded('C16', 'dimensionless SI signature bound to a tuple', 'R16.7',
+       [('units', "            self._sisig = [0, 0, 0, 0, 0, 0, 0, 0, 0]\n", "            self._sisig = (0, 0, 0, 0, 0, 0, 0, 0, 0)\n")], key='_sisig')
+benign('C16', 'dimensionless SI signature built by repetition',
+       [('units', "            self._sisig = [0, 0, 0, 0, 0, 0, 0, 0, 0]\n", "            self._sisig = [0] * 9\n")])
+seeded('C12', 'default stream created once as a default argument', 'R12.9',
+       [('streams', "    def __init__(self, default_stream: StreamInterface=None):\n        \"\"\"\n        Construct a StreamInformation object",
+         "    def __init__(self, default_stream: StreamInterface=MersenneTwister(10)):\n        \"\"\"\n        Construct a StreamInformation object")], key='shared-default')
+seeded('C01', 'remove() answers False after removing', 'R1.5',
+       [('eventlist', "            heapq.heapify(self._event_list)\n            return True\n        return False", "            heapq.heapify(self._event_list)\n            return False\n        return False")], key='remove')
+benign('C01', 'contains() written with the in operator',
+       [('eventlist', "        return self._event_list.count((event.time, -event.priority,\n                                       event._id, event)) > 0",
+         "        return (event.time, -event.priority, event._id, event) in self._event_list")])
+seeded('C06', 'STARTING no longer counts as running', 'R6.1',
+       [('simulator', "        return (self.run_state == RunState.STARTING or \\\n               self.run_state == RunState.STARTED)", "        return self.run_state == RunState.STARTED")], key='STARTING')
+benign('C09', 'minimum updated on <= (an equal observation changes nothing)',
+       [('statistics', "        self._sum += value\n        if value < self._min:\n", "        self._sum += value\n        if value <= self._min:\n")])
+seeded('C10', 'weighted minimum never lowered below the first observation', 'R10.7',
+       [('statistics', "            self._max = -math.inf\n        if value < self._min:\n            self._min = value\n",
+         "            self._max = -math.inf\n        if value < self._min and self._n == 0:\n            self._min = value\n")], key='_min')
+seeded('C08', 'per-listener removal stops at the first event type without the listener', 'R8.3',
+       [('pubsub', "                for et in list(self._listeners.keys()):\n                    self.remove_listener(et, listener)",
+         "                for et in list(self._listeners.keys()):\n                    if listener not in self._listeners[et]:\n                        break\n                    self.remove_listener(et, listener)")], key='remove_all_listeners')
+benign('C08', 'per-listener removal over a snapshot of the items',
+       [('pubsub', "                for et in list(self._listeners.keys()):\n                    self.remove_listener(et, listener)",
+         "                for et, _subs in list(self._listeners.items()):\n                    self.remove_listener(et, listener)")])
+seeded('C13', 'set_seed overwrites a zero original seed', 'R12.3',
+       [('streams', "        self._seed: int = seed\n        self._random.seed(seed)", "        if not self._original_seed:\n            self._original_seed = seed\n        self._seed: int = seed\n        self._random.seed(seed)")], key='original seed 0')
